@@ -1,5 +1,5 @@
 """C11 — writes are applied exactly once, one at a time, in submission order.  (DESIGN §4 C11)"""
-from core import (variant_edges, enum_paths, path_atoms, path_calls, path_return, ret_variant, same_value, strip_site, fmt,
+from core import (site_effects, is_effectful, variant_edges, enum_paths, path_atoms, path_calls, path_return, ret_variant, same_value, strip_site, fmt,
                   root_calls, subexprs, is_call_to, classify_external, field_path, mentions)
 from ackmodel import AckModel
 
@@ -182,7 +182,10 @@ def worker_loop(ctx, A, W, RULE, drain_liveness=False):
             continue
         names = cv[0][2]
         cmd_variants |= set(names)
-        local_calls = [(b, t) for b, t in calls if t["res"] == "item" and t.get("rlocal") and t.get("rpath") not in A.done_fns]
+        # handlers: local calls that touch cache state (locks/queues); pure bookkeeping calls (statistics counters,
+        # accessors) made by the loop itself are not command applications
+        local_calls = [(b, t) for b, t in calls if t["res"] == "item" and t.get("rlocal") and t.get("rpath") not in A.done_fns
+                       and (is_effectful(site_effects(F, W, b)) or any(mentions(W.op_origin(a), lambda s: s[0] == "variant" and strip_site(s[1]) == strip_site(("field", pair, "command"))) for a in t["args"]))]
         drains = [b for b in p if b in drain_sites]
         own = [(b, t) for b, t in dones if same_value(strip_ack(W.op_origin(t["args"][0])), ("field", pair, "acknowledgement"))]
         if drains:
